@@ -679,7 +679,8 @@ def _sbml_to_model(
 
         specie_fbc: "libsbml.FbcSpeciesPlugin" = specie.getPlugin("fbc")
         if specie_fbc:
-            met.charge = specie_fbc.getCharge()
+            # an unset charge is reported as 0 by libsbml
+            met.charge = specie_fbc.getCharge() if specie_fbc.isSetCharge() else None
             met.formula = specie_fbc.getChemicalFormula() or None
         else:
             if specie.isSetCharge():
